@@ -1,4 +1,6 @@
 """Helpers shared by the adapters: cfg text, exhaustive runs, negative controls."""
+import os
+
 from . import tlc
 
 
@@ -32,12 +34,12 @@ def constants_block(constants):
 
 
 def mc(module_file, constants, ctx, name, invariants=(), properties=(), view="View", constraint=None, deadlock=False,
-       expect_violation=False, workers=1, timeout=1200, spec="Spec", count=True, extra=""):
+       expect_violation=False, workers=1, timeout=1200, spec="Spec", count=True, extra="", coverage=False):
     """Exhaustive TLC run. A model that is meant to hold and does not is a machinery failure (the
     code did not change the model); a negative control that passes is one too."""
     cfg = cfg_text(constants, invariants, properties, spec=spec, view=view, constraint=constraint, deadlock=deadlock,
                    extra=extra)
-    res = tlc.run(module_file, cfg, tag="mc_" + name, workers=workers, timeout=timeout)
+    res = tlc.run(module_file, cfg, tag="mc_" + name, workers=workers, timeout=timeout, coverage=coverage)
     if workers > 1 and any("unexpected exception" in e for e in res.errors):
         # TLC 1.8 occasionally trips over lazily normalised record values shared between workers
         # ("Attempted to check equality of the function ... with the value ..."); one worker is immune
@@ -51,7 +53,30 @@ def mc(module_file, constants, ctx, name, invariants=(), properties=(), view="Vi
         if not res.ok:
             raise tlc.MachineryError("model %s does not satisfy its own properties: %s %s" % (
                 name, res.violated, res.errors[:3]))
+        if coverage and res.coverage:
+            # vacuity guard (TLC -coverage): how many distinct states every action of the model produced in this exhaustive run
+            cov = ctx.extra.setdefault("model_action_coverage", {})
+            mod = os.path.splitext(os.path.basename(module_file))[0]
+            acc = cov.setdefault(mod, {})
+            for a, (distinct, total) in res.coverage.items():
+                if a not in ("Init", "Terminating", "Terminated"):
+                    acc[a] = acc.get(a, 0) + total
     return res
+
+
+EXPECTED_DEAD = {"PWrS", "PWrD"}      # labels that exist only in the pinned design of the pool models (their negative control)
+
+
+def coverage_summary(ctx):
+    """after all configurations of a model were run: the actions no configuration ever took (a property that rests on them was
+    never exercised) - recorded in the evidence"""
+    cov = ctx.extra.get("model_action_coverage", {})
+    never = {m: sorted(a for a, n in acts.items() if n == 0 and a not in EXPECTED_DEAD) for m, acts in cov.items()}
+    ctx.extra["model_actions_never_taken"] = {m: v for m, v in never.items() if v}
+    for m, v in never.items():
+        if v:
+            ctx.note("model %s: actions never taken in any exhaustive configuration of this run: %s" % (m, ", ".join(v)))
+    return never
 
 
 def tla_set(xs):
